@@ -124,13 +124,14 @@ static const PmcConfig CFG[] = {
     {"1T1:azaz",        3, {1,2}, {0,0}, {0,0}, {0,0}, "owned + joined worker"},
     {"1t1:cz,i0",       3, {1,2}, {0,0}, {0,0}, {0,0}, "a stray interrupt lands on a caller blocked in call(): call() must still wait for its task"},
     {"1p1:cy,yi0",      3, {1,1}, {0,0}, {0,0}, {0,0}, ""},
+    {"1n1:ayan",        2, {1,2}, {0,0}, {0,0}, {0,0}, ""},
+    {"2p2:cyaz,azcn",   2, {1,1}, {0,0}, {0,0}, {0,0}, ""},
+    // generated programs last: they take whatever budget the configs above leave
     {"1t1:gen2x2",      3, {0,0}, {0,0}, {0,0}, {0,0}, "generated: 2 submitters x up to 2 tasks from {call,async} x {nop,yield,sleep}, every arrival order, ring of 1"},
     {"1p2:gen3x1",      3, {0,0}, {0,0}, {0,0}, {0,0}, ""},
     {"0T1:gen2x2",      3, {0,0}, {0,0}, {0,0}, {0,0}, "... only worker is a joined vCPU"},
     {"2n1:gen2x2",      2, {0,0}, {0,0}, {0,0}, {0,0}, ""},
     {"1t1:gen2x1",      2, {1,1}, {0,0}, {0,0}, {0,0}, "... one op each, one preemption"},
-    {"1n1:ayan",        2, {1,2}, {0,0}, {0,0}, {0,0}, ""},
-    {"2p2:cyaz,azcn",   2, {1,1}, {0,0}, {0,0}, {0,0}, ""},
 };
 const PmcConfig* pmc_configs(int* n) { *n = sizeof CFG / sizeof CFG[0]; return CFG; }
 const char* pmc_property(void) { return "C08"; }
